@@ -59,7 +59,10 @@ func genKeyCase(t *rapid.T) KeyCase {
 func TestC17Keys(t *testing.T) {
 	rapid.Check(t, func(rt *rapid.T) {
 		c := genKeyCase(rt)
-		st, err := runKeys(c)
+		st, err := pbt.Safe(runKeys, c)
+		if st == nil {
+			st = &keyStats{}
+		}
 		labels := []string{}
 		if len(c.MKI) > 0 {
 			labels = append(labels, "mki")
@@ -122,7 +125,10 @@ func TestC17Wire(t *testing.T) {
 			}
 			c.Bit = rapid.IntRange(0, 8*1500).Draw(rt, "tamper_bit")
 		}
-		st, err := runWire(c)
+		st, err := pbt.Safe(runWire, c)
+		if st == nil {
+			st = &wireStats{}
+		}
 		labels := []string{"reader:" + c.Reader, "publisher:" + c.Pub}
 		if st.Tampered > 0 {
 			labels = append(labels, "tampered-in-transit")
